@@ -9,7 +9,8 @@ From Coq Require Import Permutation.
 
 (* the property sentence: mage builds the package exactly when no two runnable names - targets,
    namespace targets, imported targets (alias:receiver:name; a package imported under several aliases has one
-   name per alias, the same (path, alias) pair written twice is one import), alias keys - are equal ignoring case.
+   name per alias, the same (path, alias) pair - or the same bare-tag path - written twice is one import), alias
+   keys - are equal ignoring case.
    [wf_pkg]: function names are not empty (Go identifiers). *)
 Theorem C07_rejects_iff_collision : forall pk, wf_pkg pk ->
   (mage_accepts pk = true <-> NoDup (map lower (runnable_names pk))).
@@ -80,13 +81,15 @@ Proof. exact nonvacuous_c07. Qed.
 Print Assumptions C07_nonvacuous.
 
 (* one package imported under two aliases, as a root import and with one pair written twice is accepted and every
-   name runs the package's definition; the same package as a bare-tag import twice is rejected by the code
-   (the one definition is named twice) - see tools/notes/C07.md, "root import written twice" *)
+   name runs the package's definition; the same package as a bare-tag import twice is one import too (commit
+   4a102aa); before that commit it was rejected, the one definition named twice *)
 Example C07_nonvacuous_repeated_imports :
   mage_accepts ex_multi = true /\ runnable_names ex_multi = ["Hello"; "dev:Build"; "ci:Build"; "Build"; "x"] /\
   map (fun w => option_map fid (resolve ex_multi w)) ["ci:build"; "DEV:build"; "build"; "X"] =
     [Some "e/tools.Build"; Some "e/tools.Build"; Some "e/tools.Build"; Some "e/tools.Build"] /\
-  mage_check true ex_root2 = Some (EMulti [("build", [{| f_alias := ""; f_path := "e/tools"; f_recv := ""; f_name := "Build" |};
-                                                      {| f_alias := ""; f_path := "e/tools"; f_recv := ""; f_name := "Build" |}])]).
+  mage_accepts ex_root2 = true /\ runnable_names ex_root2 = ["Build"] /\
+  mage_check_before_4a102aa ex_root2 =
+    Some (EMulti [("build", [{| f_alias := ""; f_path := "e/tools"; f_recv := ""; f_name := "Build" |};
+                             {| f_alias := ""; f_path := "e/tools"; f_recv := ""; f_name := "Build" |}])]).
 Proof. exact nonvacuous_repeated_imports. Qed.
 Print Assumptions C07_nonvacuous_repeated_imports.
